@@ -367,6 +367,26 @@ def _vm(tree):
     return info
 
 
+DECORATED = ["memory_info", "_parse_smaps_rollup", "_parse_smaps", "memory_full_info", "memory_maps", "_read_smaps_file"]
+DECORATED_FRONT = ["memory_info", "memory_full_info", "memory_maps", "memory_percent"]
+
+
+def _decorators(lx_tree, front_tree):
+    """decorator lists (outermost first) of the platform methods the property is anchored in and of the front-end methods
+    that reach them: `_parse_smaps_rollup` must stay undecorated (its ESRCH is caught by memory_full_info)"""
+    out = []
+    for name in DECORATED:
+        fn = _proc_method(lx_tree, name)
+        out.append((name, [dotted(d) if not isinstance(d, ast.Call) else ast.unparse(d) for d in fn.decorator_list]))
+    cls = extract.find_class(front_tree, "Process")
+    for name in DECORATED_FRONT:
+        fns = [n for n in ast.walk(cls) if isinstance(n, ast.FunctionDef) and n.name == name]   # memory_maps sits under an `if hasattr(...)`
+        if len(fns) != 1:
+            raise NotRecognised("front-end Process.%s: %d definitions" % (name, len(fns)))
+        out.append(("Process." + name, [dotted(d) if not isinstance(d, ast.Call) else ast.unparse(d) for d in fns[0].decorator_list]))
+    return out
+
+
 def facts(snap, F):
     cache = {}
 
@@ -397,6 +417,7 @@ def facts(snap, F):
     front = memo("front", lambda: _front(extract.parse_module(snap, "__init__.py")))
     fvm = memo("fvm", lambda: _front_vm(extract.parse_module(snap, "__init__.py")))
     vm = memo("vm", lambda: _vm(lx()))
+    decos = memo("decos", lambda: _decorators(lx(), extract.parse_module(snap, "__init__.py")))
     S, L, B, N = extract.lean_str, extract.lean_list, extract.lean_bytes, extract.lean_nat
 
     F.try_add("statmOrder", "List Nat", lambda: L(statm()[0], N),
@@ -422,6 +443,12 @@ def facts(snap, F):
     F.try_add("privateRe", "String", lambda: S(psm()["uss"][0].decode("latin-1")), "regex summed into uss")
     F.try_add("pssRe", "String", lambda: S(psm()["pss"][0].decode("latin-1")), "regex summed into pss")
     F.try_add("swapRe", "String", lambda: S(psm()["swap"][0].decode("latin-1")), "regex summed into swap")
+    F.try_add("privateReB", "List Nat", lambda: B(psm()["uss"][0]), "the same pattern text as bytes (compiled by Model/C13Re.lean compileRe)")
+    F.try_add("pssReB", "List Nat", lambda: B(psm()["pss"][0]), "the same pattern text as bytes")
+    F.try_add("swapReB", "List Nat", lambda: B(psm()["swap"][0]), "the same pattern text as bytes")
+    F.try_add("methodDecorators", "List (String × List String)",
+              lambda: L(decos(), lambda e: "(%s, %s)" % (S(e[0]), L(e[1], S))),
+              "decorators (outermost first) of the _pslinux.Process methods behind memory_info / memory_full_info / memory_maps and of the front-end methods (`Process.` prefix)")
     F.try_add("rollupPrefixes", "List (List Nat)", lambda: L(roll()[0], B),
               "startswith() prefixes of _parse_smaps_rollup in branch order (uss +=, pss =, swap =)")
     F.try_add("rollupFactor", "Nat", lambda: N(roll()[1]), "`* 1024` in _parse_smaps_rollup")
